@@ -175,6 +175,61 @@ def point_mixture_cases():
             yield {'name': f"point_isotherms|two_branches|branch={br}", 'ok': type(exc).__name__ == 'CalculationError', 'detail': f"{type(exc).__name__}: {exc}"[:200]}
 
 
+def argument_form_cases():
+    """the same physical state given with whole-number pressures as Python ints, as an integer numpy array and as floats: the
+    answers are the same (the SX obligations read the arguments as reals; this stands in for the machine number formats)"""
+    import pygaps.iast as pgi
+    isos = [_iso('Langmuir', {'K': 0.3, 'n_m': 5.0}, 0), _iso('Langmuir', {'K': 1.1, 'n_m': 5.0}, 1)]
+    ref = numpy.asarray(pgi.iast_point(isos, [2.0, 6.0], warningoff=True))
+    forms = (('int_list', [2, 6]), ('int_array', numpy.array([2, 6])), ('int32_array', numpy.array([2, 6], dtype='int32')),
+             ('float32_array', numpy.array([2, 6], dtype='float32')), ('tuple', (2, 6)))
+    for label, arg in forms:
+        try:
+            got = numpy.asarray(pgi.iast_point(isos, arg, warningoff=True), dtype=float)
+            probs = check_equations(isos, [2.0, 6.0], got, rtol=1e-4 if 'float32' in label else 1e-5)
+            if not numpy.allclose(got, ref, rtol=1e-5):
+                probs.append(f"{got} vs {ref} for floats")
+            yield {'name': f"argument_form|iast_point|{label}", 'ok': not probs, 'detail': '; '.join(probs)}
+        except Exception as exc:
+            yield {'name': f"argument_form|iast_point|{label}", 'ok': False, 'detail': f"{type(exc).__name__}: {exc}"[:200]}
+    for label, Pt in (('int', 8), ('numpy_int', numpy.int64(8))):
+        try:
+            got = numpy.asarray(pgi.iast_point_fraction(isos, [0.25, 0.75], Pt, warningoff=True), dtype=float)
+            ok = numpy.allclose(got, ref, rtol=1e-5)
+            yield {'name': f"argument_form|iast_point_fraction|total_pressure_{label}", 'ok': bool(ok), 'detail': '' if ok else f"{got} vs {ref}"}
+        except Exception as exc:
+            yield {'name': f"argument_form|iast_point_fraction|total_pressure_{label}", 'ok': False, 'detail': f"{type(exc).__name__}: {exc}"[:200]}
+    try:
+        yf, lf = pgi.reverse_iast(isos, [0.25, 0.75], 8.0, warningoff=True)
+        yi, li = pgi.reverse_iast(isos, [0.25, 0.75], 8, warningoff=True)
+        ok = numpy.allclose(yf, yi, rtol=1e-6) and numpy.allclose(lf, li, rtol=1e-6)
+        yield {'name': 'argument_form|reverse_iast|total_pressure_int', 'ok': bool(ok), 'detail': '' if ok else f"{yi},{li} vs {yf},{lf}"}
+    except Exception as exc:
+        yield {'name': 'argument_form|reverse_iast|total_pressure_int', 'ok': type(exc).__name__ == 'CalculationError', 'detail': f"{type(exc).__name__}: {exc}"[:200]}
+    try:
+        rf = pgi.iast_binary_svp(isos, [0.25, 0.75], [1.0, 2.0, 8.0], warningoff=True)
+        ri = pgi.iast_binary_svp(isos, [0.25, 0.75], [1, 2, 8], warningoff=True)
+        ok = numpy.allclose(rf['selectivity'], ri['selectivity'], rtol=1e-8)
+        yield {'name': 'argument_form|iast_binary_svp|int_pressures', 'ok': bool(ok), 'detail': '' if ok else f"{ri['selectivity']} vs {rf['selectivity']}"}
+    except Exception as exc:
+        yield {'name': 'argument_form|iast_binary_svp|int_pressures', 'ok': False, 'detail': f"{type(exc).__name__}: {exc}"[:200]}
+    try:
+        rf = pgi.iast_binary_vle(isos, 2.0, npoints=5, warningoff=True)
+        ri = pgi.iast_binary_vle(isos, 2, npoints=5, warningoff=True)
+        ok = numpy.allclose(rf['x'], ri['x'], rtol=1e-8)
+        yield {'name': 'argument_form|iast_binary_vle|int_pressure', 'ok': bool(ok), 'detail': '' if ok else f"{ri['x']} vs {rf['x']}"}
+    except Exception as exc:
+        yield {'name': 'argument_form|iast_binary_vle|int_pressure', 'ok': False, 'detail': f"{type(exc).__name__}: {exc}"[:200]}
+
+
+@replayer('c13.form')
+def _form(spec, model):
+    for r in argument_form_cases():
+        if r['name'] == spec['name']:
+            return {'confirmed': not r['ok'], 'observed': r['detail'], 'expected': 'same answer as for float arguments; IAST equations hold'}
+    return {'confirmed': False, 'error': 'case not found'}
+
+
 @replayer('c13.point')
 def _point(spec, model):
     bad = [r for r in point_mixture_cases() if not r['ok']]
